@@ -127,3 +127,46 @@ def run(ctx, langs=("c", "cpp"), stds=("c++17",), goals=None):
                                                                "carry no bytes is the discriminant alone, as rustc lays out DiplomatResult<(), ()>)", "stderr": r.stderr[-800:], "lib_rs": BRIDGE}, True)
                     break
     return n
+
+
+# ---- a std Option nested in the arm of a returned Result / Option
+NESTED = r'''
+#[diplomat::bridge]
+mod ffi {
+    #[diplomat::opaque]
+    pub struct Op(pub u8);
+    impl Op {
+        pub fn %s() -> %s { %s }
+    }
+}
+'''
+NESTED_DRIVER = r'''
+#include <stdio.h>
+#include "Op.h"
+int main(void) { Op_%s_result r = Op_%s(); printf("%%d %%d %%u\n", (int)r.is_ok, (int)r.%s.is_ok, (unsigned)r.%s.ok); return 0; }
+'''
+
+
+def run_nested_options(ctx):
+    """`Result<Option<u8>, ()>`, `Option<Option<u8>>`, `Result<u8, Option<u8>>` returning 42 in the innermost arm: every level must cross as
+    {payload, is_ok}; the tool may also refuse the shape.  Returns the number of probes."""
+    n = 0
+    for name, ret, body, arm in (("res_opt", "Result<Option<u8>, ()>", "Ok(Some(42))", "ok"), ("opt_opt", "Option<Option<u8>>", "Some(Some(42))", "ok"),
+                                 ("res_err_opt", "Result<u8, Option<u8>>", "Err(Some(42))", "err")):
+        src = NESTED % (name, ret, body)
+        d, lib, p = e2e.bridge_crate("c10n_" + name, src)
+        q = e2e.run_tool("c", os.path.join(d, "src/lib.rs"), os.path.join(d, "out_c"))
+        n += 1
+        if q.returncode != 0:
+            continue                      # refused at lowering
+        if lib is None:
+            ctx.violation("direct:nested-option", {"what": f"`-> {ret}` is accepted by the tool but the macro expansion does not compile", "rustc": p.stderr[-500:], "lib_rs": src}, True)
+            continue
+        open(os.path.join(d, "drv.c"), "w").write(NESTED_DRIVER % (name, name, arm, arm))
+        c, r = e2e.cc_run(os.path.join(d, "drv.c"), [os.path.join(d, "out_c")], lib, os.path.join(d, "drv"))
+        want = "1 1 42" if arm == "ok" else "0 1 42"
+        if r is None or r.stdout.strip() != want:
+            ctx.violation("nested-std-option-in-return", {"what": f"`fn {name}() -> {ret} {{ {body} }}` read through the generated C declarations gives (is_ok, inner is_ok, inner value) = "
+                          f"`{r.stdout.strip() if r else 'does not compile'}`, expected `{want}`: the inner std Option crosses with Rust's own layout, not as {{payload, is_ok}}",
+                          "lib_rs": src, "log": (c.stderr[-400:] if r is None else "")}, True)
+    return n
